@@ -12,7 +12,7 @@ META = dict(
     bounds=dict(quick='TRXD: fully symbolic datagrams of the boundary lengths of C04 (0..14, 151..160, 447..458) into recv_data_msg, running or not, then a valid burst; '
                       'TRXC: "CMD <VERB>" followed by a separator and up to 3 arbitrary octets for every verb that parses an integer, fully arbitrary datagrams of 0..5 octets, each followed by a valid command whose reply/effect is checked; '
                       'capture: fully symbolic file content of every length 0..14 through parse_all() / parse_msg(0) / parse_msg(1) / parse_all(1,1)',
-                thorough='TRXD every length 0..520; TRXC tails up to 4 octets, arbitrary datagrams up to 6; capture lengths 0..20'),
+                thorough='TRXD every length 0..520; forward path for 81 lengths; TRXC tails up to 4 octets, arbitrary datagrams up to 6; capture lengths 0..20'),
     stubs=['fake socket', 'logging', 'per-character symbolic text: bytes.decode (ASCII + definitely-invalid UTF-8), str.startswith/strip/split/==, int(str) grammar model', 'time.sleep', 'file proxy with symbolic read/seek sizes (case split)'],
     outside=['toolkit control datagrams containing octets 0xC2..0xF4 (possible valid multi-byte UTF-8 text)', 'trxcon: control replies longer than prefix + 3 (6) arbitrary octets; sscanf modelled for <= 9 digits', 'control datagrams longer than the enumerated tails', 'FAKE_TRXC_DELAY with a delay the OS sleep cannot represent (sleep is stubbed)', ],
     assumptions=['after the malformed input the transceiver must still answer CMD SETTA <n> with RSP SETTA 0 <n> and apply it, and still queue a valid burst'],
@@ -26,6 +26,9 @@ def jobs(tier, seed):
     lens = list(range(0, 521)) if tier == 'thorough' else list(range(0, 15)) + list(range(151, 161)) + list(range(447, 459))
     for L in lens:
         out.append(('trxd.len=%d' % L, 'h_trxd', dict(L=L)))
+    for L in ([6, 7, 8, 9, 14, 100, 153, 154, 155, 156, 449, 450, 451, 452, 500] if tier == 'quick' else list(range(6, 40)) + list(range(140, 165)) + list(range(440, 460)) + [500, 512]):
+        for dver in (0, 1):
+            out.append(('trxd.forward.len=%d.peer-v%d' % (L, dver), 'h_trxd_fwd', dict(L=L, dver=dver)))
     kmax = 4 if tier == 'thorough' else 3
     for verb in INT_VERBS:
         for k in range(0, kmax + 1):
@@ -85,6 +88,30 @@ def h_trxd(ctx, L):
             if r2 is not None: ctx.check('next-burst:fn', eq(r2.fn, m.fn))
         else:
             ctx.check('next-burst:refused-when-idle', r2 is None and len(q) == n0)
+
+
+def h_trxd_fwd(ctx, L, dver):
+    """an arbitrary data datagram that is accepted goes all the way: queued, emitted by the tick of its frame, forwarded to a tuned
+    peer (header version dver) and turned into an Rx message or dropped - nothing raises anywhere on that way"""
+    T = env.load(ctx, *TK)
+    with env.symbolic(ctx):
+        net, log, rnd = env.std_env(ctx, T)
+        hv = 1 if bool(ctx.bool('v1')) else 0
+        trx = mk_trx(ctx, T, 'T', 5700, ver=hv); trx.running = True
+        dst = mk_trx(ctx, T, 'D', 6700, ver=dver); dst.running = True
+        trx._tx_freq = dst._rx_freq = 935000000; trx._rx_freq = dst._tx_freq = 890000000
+        o = ctx.ints('o', L, 0, 255)
+        ctx.assume(eq(o[0] // 16, hv))                   # other versions are dropped at the door (covered by trxd.len=*)
+        trx.data_if.sock.inject(mk_bytes(ctx, o))
+        with ctx.no_raise('recv_data_msg:no-exception'):
+            r = trx.recv_data_msg()
+        if r is None: return
+        fwd = T.burst_fwd.BurstForwarder([trx, dst])
+        with ctx.no_raise('tick+forward:no-exception'):
+            trx.clck_tick(fwd, r.fn)
+        ctx.check('queue-drained', len(trx._tx_queue) == 0, n=len(trx._tx_queue))
+        ctx.check('peer:at-most-one-datagram', len(dst.data_if.sock.sent) <= 1, n=len(dst.data_if.sock.sent))
+        ctx.check('nothing-back-to-sender', len(trx.data_if.sock.sent) == 0)
 
 
 def mk_text(ctx, prefix, k, nul, name='c'):
